@@ -25,7 +25,28 @@ let model fs = match fs with
       show (send_data (bytes_of_hex msg) (bytes_of_hex helo) (ext8_of ext))
   | _ -> "BADCASE"
 
-let spec fs obs = "ok"
+(* C observation: F<n> <write>... P|Q END|DIE_x   or CRASH / TIMEOUT *)
+let parse_obs obs =
+  match List.rev obs with
+  | fin :: pq :: rest ->
+      let ws = (match List.rev rest with _flags :: ws -> ws | [] -> []) in
+      Some (List.concat (List.map bytes_of_hex ws), pq, fin)
+  | _ -> None
+
+let spec fs obs = match fs with
+  | op :: ext :: msg :: _ ->
+      (match obs with
+       | ["CRASH"] | ["TIMEOUT"] -> if op = "06" then "bad" else "pre"
+       | _ ->
+         (match parse_obs obs with
+          | None -> "BADCASE"
+          | Some (stream, pq, fin) ->
+              if op = "06" then
+                (if spec_ok_C06 (ext8_of ext) stream (fin = "END") then "ok" else "bad")
+              else if fin <> "END" then "pre"          (* nothing was delivered: Qremote reported a failure *)
+              else if pq = "P" then (if spec_ok_C07_plain (bytes_of_hex msg) stream then "ok" else "bad")
+              else "pre"))
+  | _ -> "BADCASE"
 
 let () =
   match Sys.argv.(1) with
